@@ -18,6 +18,14 @@ def pgn? (s : String) : Option Nat := do
 
 def isTp (p : Nat) : Bool := p = 60416 ∨ p = 60160
 
+/-- the fast-packet PGNs the harness injects multi-frame -/
+def isFp (p : Nat) : Bool :=
+  p = 129029 ∨ p = 126996 ∨ p = 126208 ∨ p = 129540 ∨ p = 126720 ∨ (130816 ≤ p ∧ p ≤ 131071)
+
+def byte? (s : String) : Option Nat := do
+  let n ← nat? s
+  if s.length ≤ 3 ∧ n ≤ 255 then some n else none
+
 def showCalls : Option (Nat × List Id) → String
   | none => "fault"
   | some (c, l) =>
@@ -75,6 +83,17 @@ def step (s : Option World) (w : List String) : Option World × String :=
         | some (c1, l1), some (c2, l2), some (c3, l3) => (s, showCalls (some (c1 + c2 + c3, l1 ++ l2 ++ l3)))
         | _, _, _ => (s, "fault")
       | _, _ => (s, "bad-op")
+    | ["fp", b, p, src, len, frames, flags] =>
+      -- the completion decision of every frame is an INPUT of the model (flags, from the harness's reference receiver)
+      match bid? b, pgn? p, nat? src, nat? len, allSome ((frames.splitOn ",").map byte?) with
+      | some b, some p, some src, some len, some fr =>
+        let fl := flags.toList
+        if ¬ isFp p ∨ src > 251 ∨ len > 223 ∨ fr.length > 40 ∨ fl.length ≠ fr.length ∨ fl.any (fun c => c ≠ '0' ∧ c ≠ '1') then (s, "bad-op") else
+        let rs := fl.map fun c => onFrame wd b (if c = '1' then .ready p else .notReady)
+        if rs.any Option.isNone then (s, "fault") else
+        let rs := rs.filterMap id
+        (s, showCalls (some ((rs.map (·.1)).foldl (· + ·) 0, rs.flatMap (·.2))))
+      | _, _, _, _, _ => (s, "bad-op")
     | "probe" :: ps => match allSome (ps.map pgn?) with
       | some l => if l.isEmpty ∨ l.any isTp then (s, "bad-op") else
         (s, " | ".intercalate (l.flatMap fun p => (List.range nBus).map fun b => showCalls (onFrame wd b (loneFrame p))))
